@@ -122,10 +122,10 @@ func ruleC11(w *World, r *Report) {
 	for _, s := range recommits {
 		relaySites = append(relaySites, Site{s, "recommit"})
 	}
-	for _, e := range fi.Calls(func(c *ssa.CallCommon) bool { return isEmit(c) }) {
-		args := e.Common().Args
-		if len(args) > 0 && fi.T.Of(args[len(args)-1]).Contains(`const("send_packet")`) {
-			relaySites = append(relaySites, Site{e, "forward-event"})
+	for _, dc := range k.deepCalls(fi, func(c *ssa.CallCommon) bool { return isEmit(c) }, 2) {
+		args := dc.Call.Common().Args
+		if len(args) > 0 && dc.Fi.T.Of(args[len(args)-1]).Contains(`const("send_packet")`) {
+			relaySites = append(relaySites, Site{dc.Outer, "forward-event"})
 		}
 	}
 	for _, s := range relaySites {
